@@ -152,13 +152,43 @@ def eval_sessions(sessions, gen_import, cfg_fx_term, tag="broker"):
     return results
 
 
+def _delivery_groups(frames):
+    """(other frames in order, [delivery group with its delivery tag erased], consumers that were delivered to)."""
+    other, groups, who = [], [], set()
+    cur = None
+    for f in frames:
+        m = re.match(r"(\d+\.\d+):basic\.deliver\(([^,]*),(\d+),(.*)\)$", f)
+        if m:
+            cur = ["%s:basic.deliver(%s,_,%s)" % (m.group(1), m.group(2), m.group(4))]
+            groups.append(cur)
+            who.add((m.group(1), m.group(2)))
+        elif cur is not None and re.match(r"\d+\.\d+:(header|body)\(", f) and f.split(":")[0] == cur[0].split(":")[0]:
+            cur.append(f)
+        else:
+            cur = None
+            other.append(f)
+    return other, sorted(tuple(g) for g in groups), who
+
+
+def schedule_dependent_step(impl_frames, model_frames):
+    """Two or more consumers were woken by the same request (an ack covering deliveries of several consumers, flow on,
+    a publish fanned out to several consumed queues): which of them writes first - and so takes the next delivery
+    tag - is the goroutine scheduler's choice.  The step is such a one when both sides show the same deliveries to
+    the same two or more consumers and agree on every other frame; only order and delivery tags differ."""
+    a, b = _delivery_groups(impl_frames), _delivery_groups(model_frames)
+    return a[0] == b[0] and a[1] == b[1] and a[2] == b[2] and len(a[2]) >= 2
+
+
 def first_diff(impl_steps, model_steps, compare_snap=True):
-    """Index of the first step where frames (and snapshot) differ, with a description; None if equal."""
+    """Index of the first step where frames (and snapshot) differ, with a description; None if equal.
+    A description starting with "schedule:" marks a step whose order of deliveries is the scheduler's choice."""
     for i, st in enumerate(impl_steps):
         if i >= len(model_steps):
             return i, "model has fewer steps"
         mf, ms = model_steps[i]
         if list(st["frames"]) != list(mf):
+            if schedule_dependent_step(list(st["frames"]), list(mf)):
+                return i, "schedule: several consumers woken at once, delivery order differs: impl=%s model=%s" % (st["frames"], mf)
             return i, "frames differ: impl=%s model=%s" % (st["frames"], mf)
         if compare_snap and list(st["snap"]) != list(ms):
             d = [(a, b) for a, b in zip(st["snap"], ms) if a != b]
